@@ -10,7 +10,8 @@ SIMPLE_RANDOM = ("gnp", "gnm", "gnd")
 BIP_RANDOM = ("glrp", "glrm", "glrd", "regular")
 
 
-def simple_graph(rng, nmax=6, random_ok=True, mods=True, files=None):
+def simple_graph(rng, nmax=6, random_ok=True, mods=True, files=None,
+                 force=None):
     """tokens, uses_randomness"""
     files = files or {}
     pool = ["grid", "torus", "complete", "empty", "complete2"]
@@ -18,7 +19,7 @@ def simple_graph(rng, nmax=6, random_ok=True, mods=True, files=None):
         pool += ["gnp", "gnm", "gnd", "gnp", "gnm", "gnd", "gnpt"]
     if files.get("simple"):
         pool += ["file", "file"]
-    c = rng.choice(pool)
+    c = force or rng.choice(pool)
     rnd = False
     n = rng.randint(2, nmax)
     if c == "gnp":
@@ -72,14 +73,15 @@ def simple_graph(rng, nmax=6, random_ok=True, mods=True, files=None):
     return [str(t) for t in toks], rnd
 
 
-def bipartite_graph(rng, nmax=5, random_ok=True, mods=True, files=None):
+def bipartite_graph(rng, nmax=5, random_ok=True, mods=True, files=None,
+                    force=None):
     files = files or {}
     pool = ["shift", "complete", "empty"]
     if random_ok:
         pool += ["glrp", "glrm", "glrd", "regular"] * 2
     if files.get("bipartite"):
         pool += ["file", "file"]
-    c = rng.choice(pool)
+    c = force or rng.choice(pool)
     L, R = rng.randint(1, nmax), rng.randint(1, nmax)
     rnd = c in BIP_RANDOM
     if c == "glrp":
@@ -111,18 +113,45 @@ def bipartite_graph(rng, nmax=5, random_ok=True, mods=True, files=None):
     return [str(t) for t in toks], rnd
 
 
-def dag_graph(rng, hmax=3, files=None):
+def dag_graph(rng, hmax=3, files=None, force=None):
     files = files or {}
     pool = ["path", "tree", "pyramid"]
     if files.get("dag"):
         pool += ["file", "file"]
-    c = rng.choice(pool)
+    c = force or rng.choice(pool)
     if c == "file":
         fname, fmt = rng.choice(files["dag"])
         toks = [fname] if rng.random() < 0.5 and fname.endswith("." + fmt) \
             else [fmt, fname]
         return [str(t) for t in toks], False
     return [c, str(rng.randint(0, hmax))], False
+
+
+SIMPLE_CONSTRUCTIONS = ["gnp", "gnpt", "gnm", "gnd", "grid", "torus",
+                        "complete", "complete2", "empty"]
+BIPARTITE_CONSTRUCTIONS = ["glrp", "glrm", "glrd", "regular", "shift",
+                           "complete", "empty"]
+DAG_CONSTRUCTIONS = ["path", "tree", "pyramid"]
+
+
+def graph_command(rng):
+    """A command line centred on one graph construction, each construction
+    of each graph type equally likely (for the boundary enumeration, which
+    has few runs and must not leave a construction out)."""
+    kind = rng.choice(["simple", "simple", "bipartite", "bipartite", "dag"])
+    if kind == "simple":
+        g, r = simple_graph(rng, 6, mods=rng.random() < 0.3,
+                            force=rng.choice(SIMPLE_CONSTRUCTIONS))
+        fam = rng.choice([["kcolor", "2"], ["tseitin", "first"], ["domset",
+                                                                  "1"]])
+    elif kind == "bipartite":
+        g, r = bipartite_graph(rng, 5, mods=rng.random() < 0.3,
+                               force=rng.choice(BIPARTITE_CONSTRUCTIONS))
+        fam = rng.choice([["php"], ["subsetcard"]])
+    else:
+        g, r = dag_graph(rng, 3, force=rng.choice(DAG_CONSTRUCTIONS))
+        fam = rng.choice([["peb"], ["stone", "2"]])
+    return fam + g, r
 
 
 # name -> generator(rng, files) -> (tokens, uses_randomness)
